@@ -31,7 +31,12 @@ RULE = (
     "training set is not the complement of the test set, and the default (cv=None), all behind a recording proxy; scorers None, r2, neg MSE / "
     "RMSE / MAE and a harness callable. Every cross_val_score case runs serially and as dask.delayed under 8 schedules (synchronous; threads "
     "with 2/4/16 workers and switch interval 1e-5; reversed and random submission order; one score at a time, synchronous and threaded). "
-    "SplineCV: grids of 1-4 dampings x 1-2 mindists (also the default grid and damping=None), serial and delayed; re-configuration histories "
+    "Equivalent spellings are exercised and must agree: a metric as None / string / get_scorer / make_scorer object / plain callable; cv as a "
+    "recording proxy (generator or list) or the bare scikit-learn / verde instance (splits replayed); weights None or a tuple of None; dampings "
+    "/ mindists as list / tuple / ndarray of float / numpy.float64 / int / numpy.int64; delayed as True / numpy.True_ / 1; test_size / spacing "
+    "/ shape as int, float, numpy scalars, list / tuple / ndarray. "
+    "SplineCV: grids of 1-4 dampings x 1-2 mindists (also the default grid and damping=None), option combinations forced in rotation (scorer "
+    "+ weights, two-dimensional grid, integral dampings of integer type, coarse grid of forces + engine='numpy'), serial and delayed; re-configuration histories "
     "(dampings / mindists / scoring / cv / delayed changed by set_params or attribute assignment before the first fit and between two fits, "
     "second fit on the same or on other data), every fit judged with the parameters in force. train_test_split: plain, "
     "shape and spacing blocks. Non-trivial = at least 2 splits with scores not all equal and not all 1 (cross_val_score); score != 1 (score); "
@@ -68,6 +73,16 @@ FLOORS = {
                      "class:splinecv_history:how:set_params": 8, "class:splinecv_history:when:before_first_fit": 8,
                      "class:splinecv_history:when:between_fits": 7, "class:splinecv_history:second_fit_on_other_data": 1},
                   **{"class:splinecv_history:changed:" + k: 2 for k in ("dampings", "mindists", "scoring", "cv", "delayed")},
+                  # equivalent spellings and SplineCV option combinations
+                  **{"eval:equivalent_spellings_agree": 14, "eval:tts_equivalent_spellings_agree": 24, "eval:splinecv_final_model_configuration": 15,
+                     "cross_val_score:bare_cv_replayed": 7, "class:cv_spelling:bare": 5, "class:cv_spelling:proxy_list": 18, "class:cv_spelling:proxy": 32,
+                     "class:weights_spelling:tuple_of_None": 6, "class:tts_spelling:test_size:float64": 15, "class:tts_spelling:test_size:int64": 2,
+                     "class:tts_spelling:shape": 4, "class:tts_spelling:spacing": 4, "class:tts:test_size_as_count": 2,
+                     "class:dampings_container:list": 5, "class:dampings_container:tuple": 2, "class:dampings_container:ndarray": 3,
+                     "class:splinecv:dampings_of_integer_type": 1, "class:splinecv:integral_dampings": 1, "class:splinecv:force_coords:coarse_grid": 1,
+                     "class:splinecv:engine:numpy": 1, "class:splinecv:scoring_with_weights": 2, "class:splinecv:several_mindists": 1,
+                     "class:delayed_spelling:bool": 2},
+                  **{"class:scoring_spelling:" + k: 4 for k in ("none", "string", "get_scorer", "make_scorer", "plain_callable")},
                   # memory layouts of the 2-D gridded datasets (each array draws its layout independently)
                   **{"class:array_layout:" + k: 12 for k in W.ARRAY_LAYOUTS}, **{"class:score_array_layout:" + k: 6 for k in W.ARRAY_LAYOUTS},
                   **{"class:splinecv:two_dimensional_grid": 2, "class:layout:2d": 24, "class:layout:2d:arrays_in_different_memory_orders": 24, "class:layout:2d:mesh": 8,
@@ -85,6 +100,44 @@ FLOORS = {
     }.items()}, distinct_nontrivial=2860, knn1_cases=120, schedules_with_overlapping_tasks=1880, schedules_completed_out_of_split_order=3600,
         **{"schedule:" + s: 640 for s in W.SCHEDULES},
         **{"eval:score_vs_flat_reference": 960, "eval:cv_sees_rows_in_split_order": 2290},
+        # equivalent spellings and SplineCV option combinations (about 40 percent of the minimum over seeds 10 and 11)
+        **{"eval:equivalent_spellings_agree": 580,
+           "eval:tts_equivalent_spellings_agree": 960,
+           "eval:splinecv_final_model_configuration": 619,
+           "cross_val_score:bare_cv_replayed": 632,
+           "class:cv_spelling:bare": 356,
+           "class:cv_spelling:proxy_list": 822,
+           "class:cv_spelling:proxy": 1250,
+           "class:weights_spelling:tuple_of_None": 354,
+           "class:tts_spelling:test_size:float64": 683,
+           "class:tts_spelling:test_size:int64": 146,
+           "class:tts_spelling:shape": 241,
+           "class:tts_spelling:spacing": 220,
+           "class:tts:test_size_as_count": 146,
+           "class:tts:spacing_as_int": 34,
+           "class:dampings_container:list": 214,
+           "class:dampings_container:tuple": 212,
+           "class:dampings_container:ndarray": 194,
+           "class:dampings_scalar:int": 64,
+           "class:dampings_scalar:numpy.int64": 69,
+           "class:dampings_scalar:numpy.float64": 252,
+           "class:mindists_container:ndarray": 64,
+           "class:splinecv:dampings_of_integer_type": 69,
+           "class:splinecv:integral_dampings": 86,
+           "class:splinecv:force_coords:coarse_grid": 85,
+           "class:splinecv:engine:numpy": 83,
+           "class:splinecv:scoring_with_weights": 120,
+           "class:splinecv:several_mindists": 76,
+           "class:delayed_spelling:bool": 112,
+           "class:delayed_spelling:int": 54,
+           "class:spline_damping_spelling:integral_as_int": 26,
+           "class:spline_damping_spelling:integral_as_int64": 26,
+           "class:cv:default(None)": 67,
+           "class:scoring_spelling:none": 242,
+           "class:scoring_spelling:string": 292,
+           "class:scoring_spelling:get_scorer": 265,
+           "class:scoring_spelling:make_scorer": 305,
+           "class:scoring_spelling:plain_callable": 302},
         **{"class:splinecv_history:changed:cv": 132,
            "class:splinecv_history:changed:dampings": 127,
            "class:splinecv_history:changed:delayed": 88,
